@@ -54,6 +54,12 @@ type Scheduler interface {
 
 type WaitInfo struct {
 	HolderTop  uint64 // waiting for this transaction to end (0 if advisory)
+	// HolderXid (optional) is the (sub)transaction that wrote the row version the waiter
+	// is blocked on. Postgres waits on that xid (XactLockTableWait), not on its top-level
+	// transaction: when it is a subtransaction that is rolled back (ROLLBACK TO SAVEPOINT)
+	// the wait ends although the top-level transaction goes on; when it is released, the
+	// wait goes on with its parent.
+	HolderXid uint64
 	HolderSess int    // session id holding an advisory lock (when HolderTop==0)
 	What       string
 	WaiterSess int   // the session that waits
@@ -357,7 +363,7 @@ func (s *Session) endTx(committed bool) {
 	for _, sc := range db.schemas {
 		for _, t := range sc.Tables {
 			for _, r := range t.Rows {
-				if r.Locker != 0 && db.topOf(r.Locker) == top {
+				if r.Locker != 0 && (r.Locker == top || db.topOf(r.Locker) == top) {
 					r.Locker = 0
 				}
 			}
@@ -483,6 +489,8 @@ func (s *Session) rollbackTo(name string) error {
 	s.cur = parent
 	s.savepoint(name)
 	s.failed = false
+	// sessions waiting for a row version written by an aborted subtransaction can go on
+	db.cond.Broadcast()
 	return nil
 }
 
@@ -548,6 +556,12 @@ func (s *Session) waitFor(w WaitInfo) error {
 }
 
 func (db *DB) waitDone(w WaitInfo) bool {
+	if w.HolderXid != 0 {
+		// status follows a released subtransaction to its parent and reports an open
+		// subtransaction whose ancestor was rolled back as aborted
+		st, _ := db.status(w.HolderXid)
+		return st != txInProgress
+	}
 	if w.HolderTop != 0 {
 		st, _ := db.status(w.HolderTop)
 		return st != txInProgress
@@ -773,6 +787,46 @@ func (db *DB) DumpFiltered(includeSeqs bool, skipTable func(schema, table string
 	db.mu.Lock()
 	defer db.mu.Unlock()
 	return db.dumpLocked(includeSeqs, skipTable)
+}
+
+// SeqKey names a sequence.
+type SeqKey struct{ Schema, Name string }
+
+// SeqPositions returns, for every sequence, the last value nextval handed out (the value
+// before the first one when nextval was never called). Sequences are not transactional:
+// the difference between two calls is what was drawn in between, whether or not the
+// transactions that drew it committed. Safe to call from a CallHook (takes the engine lock).
+func (db *DB) SeqPositions() map[SeqKey]int64 {
+	db.mu.Lock()
+	defer db.mu.Unlock()
+	out := map[SeqKey]int64{}
+	for sn, sc := range db.schemas {
+		for qn, q := range sc.Seqs {
+			inc := q.Increment
+			if inc < 1 {
+				inc = 1
+			}
+			pos := q.Last
+			if !q.Called {
+				pos -= inc
+			}
+			out[SeqKey{sn, qn}] = pos
+		}
+	}
+	return out
+}
+
+// OpenTransactions is the number of sessions with a transaction in progress.
+func (db *DB) OpenTransactions() int {
+	db.mu.Lock()
+	defer db.mu.Unlock()
+	n := 0
+	for _, s := range db.sessions {
+		if s.top != 0 {
+			n++
+		}
+	}
+	return n
 }
 
 // Clone deep-copies the database (catalog, heap, sequences, clock). No transaction
